@@ -54,11 +54,18 @@ def gen_history(rng, names, stable, hp, maxops=12):
 
     def raw(n):
         ks = rng.sample(pool, min(n, len(pool)))
-        if rng.random() < 0.06 and ks:
+        dup = rng.random() < 0.12 and ks
+        if dup:
             ks.append(ks[0])       # the same nuclide twice (two spellings)
         out, seen = [], set()
-        for k in ks:
-            key = spelling(rng, k) if rng.random() < 0.95 else rng.choice([{"o": "float"}, {"o": "none"}, {"s": "Xx-1"}, {"s": "99"}, {"i": 862220010}])
+        for pos, k in enumerate(ks):
+            forced = None
+            if dup and k == ks[0]:      # one of the two is the Nuclide object or the canonical string, the other something else
+                el, rest = k.split("-"); a_ = "".join(ch for ch in rest if ch.isdigit()); st_ = rest[len(a_):]
+                pair = rng.choice([({"n": k}, {"s": k}), ({"s": k}, {"n": k}), ({"n": k}, {"i": N.expected_id(el, int(a_), st_)}),
+                                   ({"s": k}, {"s": rng.choice(N.spell_forms(el, int(a_), st_))}), ({"n": k}, {"s": rng.choice(N.spell_forms(el, int(a_), st_))})])
+                forced = pair[0] if pos == 0 else pair[1]
+            key = forced if forced is not None else spelling(rng, k) if rng.random() < 0.95 else rng.choice([{"o": "float"}, {"o": "none"}, {"s": "Xx-1"}, {"s": "99"}, {"i": 862220010}])
             ident = json.dumps(key, sort_keys=True)      # Python dict keys: equal objects collapse before the library sees them
             if ident in seen:
                 continue
